@@ -100,6 +100,39 @@ def rename_locals(src: str, qual: str) -> Optional[str]:
     return ast.unparse(tree) + "\n"
 
 
+def invert_ifs(src: str, qual: str) -> Optional[str]:
+    """Behaviour-preserving refactor: every `if c: A else: B` (B not an elif chain) inside function `qual` becomes
+    `if not c: B else: A`; the module is re-emitted with ast.unparse."""
+    import ast
+    tree = ast.parse(src)
+    parts = qual.split(".")
+    scope = tree
+    target = None
+    for i, pname in enumerate(parts):
+        found = None
+        for n in ast.walk(scope) if i == 0 else ast.iter_child_nodes(scope):
+            if isinstance(n, (ast.FunctionDef, ast.ClassDef)) and n.name == pname:
+                found = n
+                break
+        if found is None:
+            return None
+        scope = found
+        target = found
+    if not isinstance(target, ast.FunctionDef):
+        return None
+    changed = 0
+    for n in ast.walk(target):
+        if isinstance(n, ast.If) and n.orelse and not (len(n.orelse) == 1 and isinstance(n.orelse[0], ast.If)):
+            par_is_elif = False
+            n.test = ast.UnaryOp(op=ast.Not(), operand=n.test)
+            n.body, n.orelse = n.orelse, n.body
+            changed += 1
+    if not changed:
+        return None
+    ast.fix_missing_locations(tree)
+    return ast.unparse(tree) + "\n"
+
+
 def _apply(variant: dict, root: str) -> Optional[str]:
     """Apply the edits to the copy at root; returns a reason string when the variant must be skipped."""
     if variant.get("patch"):
@@ -130,7 +163,7 @@ def _apply(variant: dict, root: str) -> Optional[str]:
             return f"file {rel} absent"
         with open(path, encoding="utf-8") as f:
             src = f.read()
-        out = rename_locals(src, qual)
+        out = rename_locals(src, qual) if kind == "rename_locals" else invert_ifs(src, qual)
         if out is None:
             return f"function {qual} not found in {rel}"
         compile(out, path, "exec")
